@@ -2092,6 +2092,8 @@ def uf(name, arity=1):
 
 TRIG_RANGE = [False]   # when set, every uninterpreted trig application comes with the range of the float function it stands for
 _RANGES = {"sin": (-1, 1), "cos": (-1, 1), "arcsin": (-PI_Q / 2, PI_Q / 2), "arccos": (0, PI_Q), "arctan": (-PI_Q / 2, PI_Q / 2)}
+TRIG_MONO = [False]    # when set, arccos/arcsin/arctan applications come with pairwise strict monotonicity
+_MONO = {"arccos": -1, "arcsin": 1, "arctan": 1}
 TRIG_LOG = []     # (name, argument term, result term) of every uninterpreted application on the current path
 
 
@@ -2113,6 +2115,14 @@ def _uf1(name, pyf):
         if TRIG_RANGE[0] and name in _RANGES:
             lo, hi = _RANGES[name]
             eng().solver.add(t >= sc.lift(lo), t <= sc.lift(hi))
+        if TRIG_MONO[0] and name in _MONO:
+            # strict monotonicity, instantiated against every earlier application on this path
+            arg, sign = _real(v), _MONO[name]
+            if name == "arccos":
+                eng().solver.add(z3.Implies(arg < 1, t > 0), z3.Implies(arg > -1, t < sc.lift(PI_Q)))
+            for n2, a2, t2 in TRIG_LOG[:-1]:
+                if n2 == name and not a2.eq(arg):
+                    eng().solver.add(z3.Implies(a2 < arg, (t2 < t) if sign > 0 else (t2 > t)), z3.Implies(a2 > arg, (t2 > t) if sign > 0 else (t2 < t)))
         return mk(t)
     def g(a, dtype=None, out=None):
         r = _unary(a, f, float64)
